@@ -661,7 +661,7 @@ impl Prop for C19 {
         "exploration"
     }
     fn rule(&self) -> String {
-        "Seeded programs of 2-14 commands over: redirections (write/append/clobber/read-write/dup/close, noclobber), cat of existing and missing files, globbing, exec N>file, closed descriptors, read from a file, pipelines, command substitution, subshell and main-shell cd (also to a missing directory), asynchronous list + wait, trap with a self-signal, killing a sleeping child (also with the signal trapped - hence blocked - in the shell, so that it stays pending in the child until the child unblocks it), umask and resulting modes, a directory in place of a file, here-documents. Each program is first run on the simulated OS under the FIFO schedule and seeded schedules with preemption; only if every schedule gives the same stdout, status and file tree (confluent) is it run, twice, on the real kernel through the same shell glue and probes on RealSystem in a fresh scratch directory (cleared environment, stdin from an empty file, umask 022); programs whose two real runs differ are discarded. Compared: stdout bytes, exit status, stderr emptiness, file tree (names, types, contents, permission bits). Distinct non-trivial = distinct admitted (script, schedule hash) pairs with >= 2 processes or >= 1 preemption.".into()
+        "Seeded programs of 2-14 commands over: redirections (write/append/clobber/read-write/dup/close, noclobber), cat of existing and missing files, globbing, exec N>file, closed descriptors, read from a file, pipelines, command substitution, subshell and main-shell cd (also to a missing directory), asynchronous list + wait, trap with a self-signal, `$PWD` naming another file, the physical working directory below a path longer than 1 KiB, job control without a terminal (`set -m`, stop / continue / `jobs`), killing a sleeping child (also with the signal trapped - hence blocked - in the shell, so that it stays pending in the child until the child unblocks it), umask and resulting modes, a directory in place of a file, here-documents. Each program is first run on the simulated OS under the FIFO schedule and seeded schedules with preemption; only if every schedule gives the same stdout, status and file tree (confluent) is it run, twice, on the real kernel through the same shell glue and probes on RealSystem in a fresh scratch directory (cleared environment, stdin from an empty file, umask 022); programs whose two real runs differ are discarded. Compared: stdout bytes, exit status, stderr emptiness, file tree (names, types, contents, permission bits). Distinct non-trivial = distinct admitted (script, schedule hash) pairs with >= 2 processes or >= 1 preemption.".into()
     }
     fn assumptions(&self) -> Vec<String> {
         vec![
